@@ -92,10 +92,6 @@ theorem ut_values_preserved (target source i : ℤ) (ht : 1 ≤ target) (hs : 1 
       rw [if_pos (by omega)]
       congr 1; omega
 
-theorem ut_wiring :
-    Gen.ut_apply_expr = "fn(result, tuple(((before, after) if ax == i else neutral for i in range(result.ndim))))"
-    ∧ Gen.template_expr = "return np.fft.rfft2(self.get_mask(sig_shape))" := ⟨rfl, rfl⟩
-
 /-- Defect D5 (pre-repair: `before = extra // 2`): 5 → 8 pad puts the centre on 3, not 4. -/
 theorem ut_prefix_counterexample : (8 - 5) / 2 + 5 / 2 = (3 : ℤ) ∧ (8 : ℤ) / 2 = 4 := by decide
 
